@@ -344,7 +344,23 @@ Definition SIG_FRAME_LATE := 11.      (* listed, but not in the first tick after
 (* (smac, dmac, sip, dip) and the pair a frame must be listed as, when it is without doubt a
    probe: Ethernet II / IPv4, version 4, no IP options, complete, to one of our addresses;
    UDP with consistent length to a port without decoder; any ICMP message of >= 8 bytes; TCP
-   without options, SYN and no ACK, neither port 22 *)
+   with a well-formed option area (none, or e.g. the MSS-only SYN of nmap, the option sets of
+   the Linux / Windows / macOS stacks), SYN and no ACK, neither port 22, any checksum *)
+(* TCP options as RFC 793 lays them out: end-of-list, no-op, or kind/length/value with the
+   length covering kind and length bytes and staying inside the option area *)
+Fixpoint opts_wf (fuel : nat) (o : bytes) : bool :=
+  match fuel, o with
+  | O, _ => true
+  | _, [] => true
+  | S f, k :: r =>
+      if k =? 0 then true
+      else if k =? 1 then opts_wf f r
+      else match r with
+           | [] => false
+           | l :: _ => (2 <=? l) && (l <=? blen o) && opts_wf f (skipn (N.to_nat l) o)
+           end
+  end.
+
 Definition spec_probe (me : list N) (f : bytes) : option ((N * N * N * N) * (N * N)) :=
   if blen f <? 34 then None
   else if negb (u16 f 12 =? 2048) then None
@@ -360,7 +376,10 @@ Definition spec_probe (me : list N) (f : bytes) : option ((N * N * N * N) * (N *
       | 17 => if (8 <=? l4) && (u16 f 38 =? l4) && negb (existsb (N.eqb (u16 f 36)) udp_decoder_ports)
               then Some (src, (1, u16 f 36)) else None
       | 1 => if 8 <=? l4 then Some (src, (2, 0)) else None
-      | 6 => if (20 <=? l4) && (u8 f 46 / 16 =? 5) && flag (u8 f 47) 1 && negb (flag (u8 f 47) 4) &&
+      | 6 => let off := u8 f 46 / 16 in
+             if (20 <=? l4) && (5 <=? off) && (off * 4 <=? l4) &&
+                opts_wf 64 (firstn (N.to_nat (off * 4 - 20)) (skipn 54 f)) &&
+                flag (u8 f 47) 1 && negb (flag (u8 f 47) 4) &&
                 negb (u16 f 34 =? 22) && negb (u16 f 36 =? 22)
              then Some (src, (0, u16 f 36)) else None
       | _ => None
